@@ -28,7 +28,8 @@ CONSTANTS N0, N1, N2,      \* lists: longest list whose deepest node has nesting
           Fns,             \* calls: the functions called
           Rich,            \* calls: TRUE = the larger value alphabet
           TextLen, Chars,  \* text: longest text, its alphabet (code points)
-          IntParts         \* nums: integer parts combined with every fraction
+          IntParts,        \* nums: integer parts combined with every fraction
+          Sample           \* replay: one case in Sample is printed (1 = all)
 
 VARIABLE x
 
@@ -89,12 +90,13 @@ SpecLists == InitLists /\ [][NextLists]_x
 InvWellFormed  == WellFormed(x.m, x.l)
 InvRoundTrip   == RoundTrip(x.m, "vec", x.l) /\ RoundTrip(x.m, "elem", x.l)
 InvPrintInMode == PrintInMode(x.m, x.l)
+InvTextRoundTrip == TextRoundTrip(x.m, "vec", x.l, Len(x.l) % 4)
 \* negative control: with the recorded deviation of the printer the round trip fails
 InvRoundTripDevRatioSign == FromProg(x.m, ToCalls(x.m, "vec", x.l, {DevRatioSign})).list = x.l
 \* discretionary lists are exercised as the lists of a disc node; directly too:
 InvRoundTripD  == x.m = "h" => \A i \in 1..Len(x.l) : x.l[i].k = "disc" => RoundTrip("d", "vec", x.l[i].pre)
 
-EmitList == PrintT(<<"REPLAY", ToJson([t |-> "list", m |-> x.m, list |-> x.l,
+EmitList == (Len(x.l) <= 1 /\ x.dp = 0) \/ PrintT(<<"REPLAY", ToJson([t |-> "list", m |-> x.m, list |-> x.l,
                                        calls |-> ToCalls(x.m, "vec", x.l, {})])>>)
 
 ---------------------------------------------------------------------------
@@ -157,6 +159,7 @@ InvRenderReads == x.m = "h" => \A st \in 0..3 : RenderReads(Prog, st)
 ValHash(v) == v.n + v.o + Len(v.s) + Len(v.p)
 CallHash(c) == Len(c.args) + (IF c.args = <<>> THEN 0 ELSE ValHash(c.args[Len(c.args)].v) + Len(c.args[1].key))
 EmitCall == LET st == CallHash(x.c) % 4 IN
+            (CallHash(x.c) + Len(x.c.fn)) % Sample # 0 \/
             PrintT(<<"REPLAY", ToJson([t |-> "prog", m |-> x.m, p |-> Prog, st |-> st,
                                        text |-> Render(Prog, st), want |-> Res])>>)
 
@@ -196,6 +199,8 @@ InvScanPrint ==
   /\ TokenRoundTrip([t |-> "int", n |-> Num, o |-> 0, s |-> <<>>], 0)
   /\ TokenRoundTrip([t |-> "int", n |-> (IF Num >= 0 THEN MaxInt - Num ELSE -MaxInt - Num), o |-> 0, s |-> <<>>], 0)
   /\ ScanRatio(PrintScaled(Num)) = [ok |-> TRUE, n |-> Num]
+  \* print_scaled never needs more than five digits
+  /\ Len(FracDigits(x.v % Unity)) <= 5
   \* the sp form is exact as well
   /\ LET ks == Lex(PrintInt(Num) \o U_sp) IN Len(ks) = 1 /\ ks[1].t = "dim" /\ ks[1].n = Num
 
@@ -209,7 +214,7 @@ InvStrRoundTrip == \A esc \in 0..2 : TokenRoundTrip([t |-> "str", n |-> 0, o |->
 \* TeX's unit table (TeX.2021.458): one unit in scaled points, and a few conversions that were
 \* cross-checked against common::Scaled::new
 Txt(digits) == [i \in 1..Len(digits) |-> IF digits[i] = -1 THEN 46 ELSE 48 + digits[i]]
-ASSUME UnitsAsInTeX ==
+InvUnitsAsInTeX ==
   LET val(txt) == Lex(txt)[1].n IN
   /\ val(<<49>> \o U_in) = 4736286 /\ val(<<49>> \o U_cm) = 1864679 /\ val(<<49>> \o U_mm) = 186467
   /\ val(<<49>> \o U_bp) = 65781   /\ val(<<49>> \o U_dd) = 70124   /\ val(<<49>> \o U_cc) = 841489
